@@ -14,9 +14,9 @@ PROPS = {
     "C02": {"level": "model_checking", "engines": [LINOP, ("index_maps", "index_maps", "run"), ("prox", "prox", "run"), ("nufft", "nufft", "run"), ("purity", "purity", "run")], "rule": LINOP_RULE, "assumptions": LINOP_ASSUME, "trusted": TLC_BASE},
     "C03": {"level": "model_checking", "engines": [LINOP], "rule": LINOP_RULE, "assumptions": LINOP_ASSUME, "trusted": TLC_BASE},
     "C04": {"level": "model_checking", "engines": [LINOP, ("interp", "interp", "run"), ("nufft", "nufft", "run")], "rule": LINOP_RULE, "assumptions": LINOP_ASSUME, "trusted": TLC_BASE},
-    "C15": {"level": "model_checking", "engines": [("alg_protocol", "alg_protocol", "run"), ("cg", "cg", "run"), ("descent", "descent", "run"), ("espirit", "espirit", "run"), ("lls", "lls", "run")],
+    "C15": {"level": "model_checking", "engines": [("alg_protocol", "alg_protocol", "run"), ("cg", "cg", "run"), ("descent", "descent", "run"), ("espirit", "espirit", "run"), ("lls", "lls", "run"), ("splitting", "splitting", "run")],
             "rule": "one case per Alg object observed through the trace hooks (driven along TLC-generated call sequences, inner solvers, and the repository's own tests) validated by TLC against AlgLoopTrace.tla; non-trivial = the object performed at least two updates",
-            "assumptions": ["protocol model checked for max_iter 0..3 (quick) / 0..4 (thorough) with up to max_iter+2 hand-driven updates", "early-stop probe compares solution arrays bitwise after one further update"],
+            "assumptions": ["protocol model checked for max_iter 0..3 (quick) / 0..4 (thorough) with up to max_iter+2 hand-driven updates", "early-stop probe compares solution arrays bitwise after one further update", "splitting engine: exact instances of dimension 1-2, max_iter <= 3 (quick) / 4 (thorough); early stop compared to 1e-9"],
             "trusted": TLC_BASE + ["tla2tools Json module", "trace hooks in sigpy/_verif.py"]},
     "C20": {"level": "model_checking", "engines": [("trap", "trap", "run")],
             "rule": "one case per TLC state of Trap.tla (designer, G, a) mapped to dimensional argument tuples, plus finished spoke assemblies of Spokes.tla; non-trivial = not at an exact ceil/floor tie (there only the requirement predicates are checked)",
@@ -91,6 +91,8 @@ PROPS = {
 HOOK_COMMITS = ["609775d"]
 
 ENGINES = [
+    {"name": "splitting", "path": "harness/engines/splitting.py + spec/ADMM.tla, ALM.tla, AltMin.tla, Newton.tla, GerchbergSaxton.tla", "serves_properties": ["C15"],
+     "kind_free_text": "TLC over exact rational trajectories of the remaining Alg subclasses, one action per sub-step of _update (fixed points, Lyapunov functions, line-search termination); every dumped state replayed on the real class through caller closures; counter / budget / early-stop clauses reported under C15, other disagreements under ./check extra"},
     {"name": "purity", "path": "harness/engines/purity.py + spec/PurityTrace.tla", "serves_properties": ["C02"],
      "kind_free_text": "recorded calls of every public array function (argument CRCs before/after, result CRC, repeated call) validated by TLC against PurityTrace.tla"},
     {"name": "espirit", "path": "harness/engines/espirit.py + spec/PowerMethod.tla, spec/EspiritTrace.tla", "serves_properties": ["C17", "C15"],
@@ -138,7 +140,7 @@ MANIFEST_TEXT = {
             "technique": "TLA+ rational transcription + TLC sweep + spec-to-code replay with requirement predicates"},
     "C15": {"text": "AlgLoop.tla (protocol of Alg.update/done and App.run) is model-checked by TLC (budget, counter, purity of done(), liveness of the canonical loop); behaviours of its state graph drive every Alg subclass and App with the trace hooks on; every Alg object observed - driven ones, inner solvers, and all objects created by the repository's tests - is validated by TLC against AlgLoopTrace.tla, including the harness's early-stop probe (tol=0, done() before the budget => one more update must leave the solution arrays bitwise unchanged, or a breakdown flag is set).",
             "design_ref": "DESIGN.md section 5 C15",
-            "note": "Trusted: TLC, Json module, the hooks (sigpy/_verif.py), the driver's problem factories. Early-stop probe covers algorithms driven by the harness (all Alg subclasses, LinearLeastSquares per solver, L2ConstrainedMinimization, MaxEig). PowerMethod eigenvalue monotonicity: see power_method engine when listed.",
+            "note": "Trusted: TLC, Json module, the hooks (sigpy/_verif.py), the driver's problem factories. Early-stop probe covers algorithms driven by the harness (all Alg subclasses, LinearLeastSquares per solver, L2ConstrainedMinimization, MaxEig). PowerMethod eigenvalue monotonicity: PowerMethod.tla (espirit engine). ADMM/ALM/AltMin/Newton/GerchbergSaxton.tla (splitting engine) add the exact update equations of the remaining subclasses; only their counter, budget, held-solution and early-stop clauses count for C15.",
             "technique": "TLA+ protocol spec + TLC (safety and liveness) + trace validation of hooked executions (driver and repository tests)"},
     "C01": {"text": "TLC checks AdjShapes/AdjCorrect/AdjInvolution for every operator expression reachable in LinopAlgebra.tla (mechanism AdjRule transcribed from each _adjoint_linop against exact matrices over Z[i]); every dumped entry is rebuilt on the real classes and dense(A.H) is compared with dense(A)^H, A.H.H with A, shapes swapped.",
             "design_ref": "DESIGN.md sections 4, 5 C01", "note": _LINOP_NOTE,
@@ -161,6 +163,9 @@ MANIFEST_TEXT = {
 }
 
 NOT_APPLICABLE = {}
+
+# engines whose SPEC-tagged disagreements (conformance to the specification beyond the listed properties) are reported by `./check extra`
+EXTRA_ENGINES = [("splitting", "splitting", "run")]
 
 MANIFEST_TEXT["C18"] = {
     "text": "PoissonSearch.tla models the slope bisection on a float lattice with an arbitrary (non-monotone) acceleration function; TLC checks OkIsWithinTol and the liveness property Terminates (the loop without the collapse test is kept as a negative control that must fail). poisson() is run on the real code with _poisson wrapped under a watchdog; every call (probes as slope ranks + integer facts about the mask, RNG state crc, reproducibility memo) is validated by TLC against PoissonTrace.tla.",
